@@ -55,7 +55,7 @@ def run_output(M, lists, json=False, batch=False, verbose=False, level='info', c
         L = dict(lists)
         # the tool reports the server-to-client lists; for server audits the client-to-server lists are decoys (a consumer of the wrong list becomes visible)
         if c2s is None:
-            c2s = None if client else {'enc': ['decoy-c2s-cipher'], 'mac': ['decoy-c2s-mac', 'hmac-md5'], 'comp': ['decoy-c2s-compression']}
+            c2s = {'enc': ['decoy-c2s-cipher'], 'mac': ['decoy-c2s-mac', 'hmac-md5'], 'comp': ['decoy-c2s-compression']}
         kex = make_kex(M, L, host_keys=host_keys, dh=dh, c2s=c2s)
     banner = M.banner.Banner(protocol, sw, comments, True) if sw is not None else None
     cj = CaptureJson()
